@@ -124,7 +124,7 @@ CLAIMED = {
             "TLC enumerates shapes with sizes 1-3 up to 3-d (thorough: all, plus 4-d), every NaN pattern for <= 4 cells and a slice/all/sparse family "
             "beyond, dtypes f/i/b, every axis by name / position / negative position, every ordered tuple of dims, axis=None, both skipna settings; "
             "the spec decides which input cells form each fibre, in which order, and when the result is NaN; NumPy's 1-d function is applied to "
-            "exactly those cells and compared (rtol 1e-9, NaN positions exact) together with dims, labels, metadata.",
+            "exactly those cells and compared (rtol 1e-9, NaN positions exact) together with dims, labels, metadata. The repository's own reduction tests (tests/test_transformations.py) are run under a recorder plugin and every recorded call (165) is validated: structure by TLC (spec/TraceOps.tla), values by evaluating NumPy on the fibres TLC prints.",
             "Trusted: TLC, projection/concretisation, NumPy 1-d reductions.",
             "5 (C08)"),
     "C04": ("TLA+ specification of binary operations (spec/Arrays.tla BinOp = Align + pairing of cells by label coordinate) enumerated by TLC with "
@@ -146,29 +146,29 @@ CLAIMED = {
             "semantics) enumerated by TLC with MovesWithLabels / identity / RaiseIff theorems; scenarios replayed",
             "TLC enumerates every stored order of the axis x every new label sequence (incl. empty, repeated, disjoint) x fill x raise_error x "
             "method, the reindexed axis embedded at each position of 2-3-d arrays, and reindex_like templates; spec theorems are invariants; each "
-            "scenario is replayed with labels as list / ndarray / Axis and kinds int, float, str and int<->float.",
+            "scenario is replayed with labels as list / ndarray / Axis and kinds int, float, str and int<->float. In the other direction, randomly driven calls on arrays of up to 4 dimensions and 5 labels per axis are recorded from the real library and accepted by TLC only if spec/TraceOps.tla (the same reference operators) reproduces the logged result; corrupted control events must be rejected on every run.",
             "Trusted: TLC, projection/concretisation, NumPy. Source axes are non-empty (empty sources belong to C06).",
             "5 (C07)"),
     "C10": ("TLA+ reference semantics of transpose/T/swapaxes/rollaxis/newaxis/squeeze/repeat/broadcast/broadcast_arrays (spec/Arrays.tla) "
             "model-checked by TLC (coordinate-preservation invariants on every reachable program state) and every program replayed",
             "TLC explores every program of 1-2 rearranging operations over the template arrays (0-3 dims quick, 0-4 thorough, distinct axis lengths, "
             "singleton dims) with all permutations / axis pairs / insertion positions / broadcast targets, checking CoordPreserved, NoLoss, "
-            "TransposeInverse, SqueezeNewAxis as invariants; each step of each program is replayed in dimarray with dims given by name and by position.",
+            "TransposeInverse, SqueezeNewAxis as invariants; each step of each program is replayed in dimarray with dims given by name and by position. In the other direction, randomly driven calls on arrays of up to 4 dimensions and 5 labels per axis are recorded from the real library and accepted by TLC only if spec/TraceOps.tla (the same reference operators) reproduces the logged result; corrupted control events must be rejected on every run.",
             "Trusted: TLC, projection/concretisation, NumPy. The label of a newly introduced singleton dimension that is never repeated is left open.",
             "5 (C10)"),
     "C02": ("TLA+ reference semantics of label and position slices (spec/Labels.tla LocSlice, PosSlice) enumerated exhaustively by TLC and replayed",
-            "TLC enumerates every (axis, start, stop, step) combination within bounds (monotonic axes = all subsets of the universe in both directions incl. empty, shuffled, string, position slices; 1-d and embedded in 2-d), checks bounding-box / no-wrap theorems on the spec, and each expected selection is compared with the real library through every spelling.",
+            "TLC enumerates every (axis, start, stop, step) combination within bounds (monotonic axes = all subsets of the universe in both directions incl. empty, shuffled, string, position slices; 1-d and embedded in 2-d), checks bounding-box / no-wrap theorems on the spec, and each expected selection is compared with the real library through every spelling. In the other direction, randomly driven calls on arrays of up to 4 dimensions and 5 labels per axis are recorded from the real library and accepted by TLC only if spec/TraceOps.tla (the same reference operators) reproduces the logged result; corrupted control events must be rejected on every run.",
             "Trusted: TLC, projection/concretisation, NumPy. Bounds: axis length 0-3 quick / 0-5 thorough, bounds from one below to one above the universe, steps None,1,2,3,-1,-2.",
             "5 (C02)"),
     "C03": ("TLA+ reference semantics of assignment (spec/Arrays.tla Put, MC_C03 PutMask) enumerated by TLC with frame / read-back theorems; scenarios replayed",
-            "TLC enumerates index forms x right-hand-side shapes x inplace, the 4x4 dtype-kind table with cast, N-d boolean masks and a.values=v; frame condition and read-back are TLC invariants of the spec; every scenario is replayed through a[idx]=v, put, .ix, .iloc, .loc and compared cell by cell, dtype kind against the loss-free set.",
+            "TLC enumerates index forms x right-hand-side shapes x inplace, the 4x4 dtype-kind table with cast, N-d boolean masks and a.values=v; frame condition and read-back are TLC invariants of the spec; every scenario is replayed through a[idx]=v, put, .ix, .iloc, .loc and compared cell by cell, dtype kind against the loss-free set. In the other direction, randomly driven calls on arrays of up to 4 dimensions and 5 labels per axis are recorded from the real library and accepted by TLC only if spec/TraceOps.tla (the same reference operators) reproduces the logged result; corrupted control events must be rejected on every run.",
             "Trusted: TLC, projection/concretisation, NumPy. Bounds: 1-2 dims, axes of 1-3 labels; repeated list indices only with scalar right-hand sides.",
             "5 (C03)"),
     "C01": ("TLA+ reference semantics (spec/Arrays.tla Take/ResolveIndex) enumerated exhaustively by TLC; every scenario "
             "replayed into dimarray through all spellings and label kinds",
             "TLC enumerates every (array, per-dimension index menu, mode, tolerance) scenario within the stated bounds, checks the "
             "spec-level theorems on each, and the expected outcome of each scenario is compared with the real library for every "
-            "equivalent spelling: exhaustive within bounds on the model side, conformance-tested on the code side.",
+            "equivalent spelling: exhaustive within bounds on the model side, conformance-tested on the code side. In the other direction, randomly driven calls on arrays of up to 4 dimensions and 5 labels per axis are recorded from the real library and accepted by TLC only if spec/TraceOps.tla (the same reference operators) reproduces the logged result; corrupted control events must be rejected on every run.",
             "Trusted: TLC, the projection/concretisation layer, NumPy. Bounds: 0-2 dims quick / 0-3 thorough, axes of 1-3 unique labels.",
             "5 (C01)"),
 }
